@@ -99,6 +99,7 @@ type Driver struct {
 	free     bool // free-run mode (C20): no central scheduling
 	ending   bool
 	gids     map[uint64]int
+	gidInst  map[uint64]int // goroutine -> instance it was last seen working for
 	parked   map[*yieldReq]bool
 	inflight map[*Op]bool
 	apiBusy  []int // per instance: API calls in progress
@@ -177,8 +178,10 @@ func (d *Driver) RunFree() {
 		time.Sleep(w)
 	}
 	// stop everything
+	d.smu.Lock()
 	d.mu.Lock()
 	d.ending = true
+	d.smu.Unlock()
 	var objs []*elObj
 	for _, in := range d.insts {
 		objs = append(objs, in.objs...)
@@ -491,6 +494,9 @@ func (d *Driver) acceptOp(op *Op) {
 		}
 	}
 	d.h.Ops = append(d.h.Ops, op)
+	if op.Inst >= 0 {
+		d.gidInst[op.GID] = op.Inst
+	}
 	d.inflight[op] = true
 	if in != nil {
 		in.inflightOps++
